@@ -1339,6 +1339,19 @@ func conversions(x, r dec, pexp int) (vals []dec, twice bool) {
 
 var limit52 = new(big.Int).Lsh(big.NewInt(1), 52)
 
+func dedupe(ds []dec) []dec {
+	seen := map[string]bool{}
+	out := ds[:0]
+	for _, d := range ds {
+		k := d.String()
+		if !seen[k] {
+			seen[k] = true
+			out = append(out, d)
+		}
+	}
+	return out
+}
+
 func judgePayment(c PayCase, o *vh.Obs) {
 	if len(c.Lines) < 1 || len(c.Lines) > 8 {
 		o.Discard()
@@ -1531,10 +1544,7 @@ func judgePayment(c PayCase, o *vh.Obs) {
 				next = append(next, addDec(s, w))
 			}
 		}
-		if len(next) > 64 {
-			next = next[:64]
-		}
-		sumCands = next
+		sumCands = dedupe(next)
 		if ol.Document != nil && ol.Document.Tax != nil {
 			operands = append(operands, *ol.Document.Tax)
 		}
